@@ -169,7 +169,7 @@ func (Engine) Run(c *choice.Src, o engine.Opt) (out engine.Out) {
 				case 1:
 					op.Share = c.Choose(n, "othershare") // possibly a wrong signer's share
 				case 2:
-					op.Orig = []int{-1, n}[c.Choose(2, "badorig")]
+					op.Orig = []int{-1, n, 256 + op.Orig, 255}[c.Choose(4, "badorig")]
 					op.Share = 0
 				default:
 					op.Share = op.Orig
